@@ -367,16 +367,17 @@ func tbInvalidates(re *ast.RuleEntry, what int) bool {
 
 // Template sets (the *programs* dimension is a curated family; see DESIGN §4).
 var tbSets = map[string][]string{
-	"json":    {"j_basic"},
-	"memo":    {"b_basic", "b_toplevel", "b_slice_sel", "b_slice", "b_map", "b_nested", "b_short", "b_shared", "b_forget", "b_ptrswap", "b_forgetcall", "b_chain", "b_failshared", "b_elemfield", "m_multires", "m_partial", "b_elemheavy", "b_substr"},
-	"control": {"b_retract", "b_fail", "b_nilptr", "b_actfail", "b_completefail", "b_parenfail", "b_kind"},
-	"values":  {"b_compound", "b_args", "b_float", "b_string", "b_ifacebool"},
-	"reuse":   {"b_unread", "b_retract", "b_basic", "b_writeonly", "b_complete"},
-	"reuseq":  {"b_unread", "b_basic", "b_writeonly", "b_complete"},
-	"failing": {"b_kind", "b_fail", "b_nilptr", "b_parenfail"},
-	"dbg":     {"b_kind"},
-	"fetch":   {"b_basic", "b_short", "b_map", "b_slice", "b_nested", "b_shared", "b_ifacebool"},
-	"clone":   {"b_paren", "b_argshare", "b_shared", "b_short", "b_retract", "b_map", "b_slice_sel", "b_forgetcall", "two"},
+	"json":     {"j_basic"},
+	"memo":     {"b_basic", "b_toplevel", "b_slice_sel", "b_slice", "b_map", "b_nested", "b_short", "b_shared", "b_forget", "b_ptrswap", "b_forgetcall", "b_chain", "b_failshared", "b_elemfield", "m_multires", "m_partial", "b_elemheavy", "b_substr"},
+	"control":  {"b_retract", "b_fail", "b_nilptr", "b_actfail", "b_completefail", "b_parenfail", "b_kind"},
+	"values":   {"b_compound", "b_args", "b_float", "b_string", "b_ifacebool"},
+	"reuse":    {"b_unread", "b_retract", "b_basic", "b_writeonly", "b_complete"},
+	"reuseq":   {"b_unread", "b_basic", "b_writeonly", "b_complete"},
+	"failing":  {"b_kind", "b_fail", "b_nilptr", "b_parenfail"},
+	"controlp": {"b_retract", "b_fail", "b_nilptr", "b_actfail", "b_completefail"},
+	"dbg":      {"b_kind"},
+	"fetch":    {"b_basic", "b_short", "b_map", "b_slice", "b_nested", "b_shared", "b_ifacebool"},
+	"clone":    {"b_paren", "b_argshare", "b_shared", "b_short", "b_retract", "b_map", "b_slice_sel", "b_forgetcall", "two"},
 }
 
 // VerifTierBSet runs VerifTierBRun for every template of a set (enumerated by Choice, explored in parallel).
